@@ -58,7 +58,7 @@ TABLES = ["UBX_PAYLOADS_GET", "UBX_PAYLOADS_SET", "UBX_PAYLOADS_POLL", "UBX_MSGI
 def floors(tier):
     return {"setattr": 1200, "delattr": 1200, "name=existing": 800, "name=private": 500, "name=new": 300,
             "name=property": 300, "silence-op": 1500, "history": 100, "history:nontrivial": 30,
-            "threads": 10}
+            "threads": 10, "coldstart": 40}
 
 
 def plan(tier, seed):
@@ -190,6 +190,8 @@ def probe_ops():
         ["parse", f(b"\x06", b"\x8b", bytes([1, 0, 0, 0, 1, 0, 0x01, 0x10, 0x01])), 0, 1],   # undocumented key
         ["config", "set", 1, 0, [["CFG_0x10010001", b"\x01"]]],                   # not a database name -> error
         ["helper", "cfgkey2name", 0x10010001],
+        ["parse", f(b"\x06", b"\x8b", bytes([1, 0, 0, 0]) + (0x10340014).to_bytes(4, "little") + b"\x01"), 0, 1],  # aliased key
+        ["helper", "cfgkey2name", 0x10340014],
         ["stream", f(b"\x05", b"\x01", b"\x06\x01") + b"$GNGLL,5327.04319,N,00214.41396,W,223232.00,A,A*68\r\n"
          + f(b"\x06", b"\x31", b"\x00") + b"\xd3\x00\x00", 0],
     ]
@@ -203,6 +205,47 @@ def probe_digest():
 
 _BASELINE = {}
 _OPLOG = []  # every history operation executed in this process, in order (bounded)
+
+
+def _in_child(fn, timeout=120):
+    """Run fn() in a forked child of this (pristine) process and return its
+    JSON-able result."""
+    import json
+    import select
+
+    r, w = os.pipe()
+    pid = os.fork()
+    if pid == 0:
+        try:
+            os.close(r)
+            try:
+                data = json.dumps(fn())
+            except BaseException as err:  # noqa
+                data = json.dumps({"__error__": repr(err)})
+            with os.fdopen(w, "w") as fh:
+                fh.write(data)
+        finally:
+            os._exit(0)
+    os.close(w)
+    chunks = []
+    with os.fdopen(r, "r") as fh:
+        ready, _, _ = select.select([fh], [], [], timeout)
+        if ready:
+            chunks.append(fh.read())
+    os.waitpid(pid, 0)
+    import json as _j
+
+    return _j.loads("".join(chunks)) if chunks and chunks[0] else {"__error__": "no result from child"}
+
+
+def isolated_baseline():
+    """Each probe executed alone in a pristine process (fork taken before any
+    library operation ran in this process).  Computed once per process, so it
+    must be requested before the first operation."""
+    if "iso" not in _BASELINE:
+        ops = probe_ops()
+        _BASELINE["iso"] = [_in_child(lambda op=op: run_op(op)) for op in ops]
+    return _BASELINE["iso"]
 
 
 def baseline():
@@ -349,19 +392,21 @@ def check(case) -> core.Out:
         return out
     if k == "history":
         ops = case["ops"]
-        want_d, want_r = baseline()
+        want_r = isolated_baseline()
+        want_d = hashlib.blake2b("\n".join(map(str, want_r)).encode(), digest_size=12).hexdigest()
         out = core.Out(classes=["history"], dig=core.digest(ops))
         if not case.get("replay_log"):
             # state leaked from histories run earlier in this process?  Then the
             # whole operation log is the (replayable) history that exposes it.
             pre_d, pre_r = probe_digest()
-            if pre_d != want_d and _OPLOG:
+            if pre_r != want_r:
                 idx = next((i for i, (a, b) in enumerate(zip(pre_r, want_r)) if a != b), -1)
                 log = list(_OPLOG)
                 _OPLOG.clear()
                 out.viol.append((f"{PROP}|history-dependent",
-                                 f"after the {len(log)} operations run so far in this process, probe #{idx} gives "
-                                 f"{pre_r[idx][:80]!r} but {want_r[idx][:80]!r} in a fresh process"))
+                                 f"after the {len(log)} operations run so far in this process (and the probes before "
+                                 f"it), probe #{idx} ({str(core.jenc(probe_ops()[idx]))[:90]}) gives "
+                                 f"{pre_r[idx][:80]!r} but {str(want_r[idx])[:80]!r} when run alone in a fresh process"))
                 out.replay_case = {"kind": "history", "ops": log, "replay_log": True}
                 return out
         before = table_digests()
@@ -376,7 +421,7 @@ def check(case) -> core.Out:
         if out.nontrivial:
             out.classes.append("history:nontrivial")
         out.sample = {"history_len": len(ops), "ops": [op[0] for op in ops][:12], "failing_op_present": failing}
-        if got_d != want_d:
+        if got_r != want_r:
             idx = next((i for i, (a, b) in enumerate(zip(got_r, want_r)) if a != b), -1)
             out.viol.append((f"{PROP}|history-dependent",
                              f"probe #{idx} ({str(core.jenc(probe_ops()[idx]))[:100]}) gives {got_r[idx][:80]!r} after the "
@@ -384,6 +429,38 @@ def check(case) -> core.Out:
         for name in before:
             if before[name] != after[name]:
                 out.viol.append((f"{PROP}|tables-changed:{name}", f"table {name} modified by an operation history"))
+        return out
+    if k == "coldstart":
+        # 8 threads released together in a *pristine* forked child, each running the
+        # same probe operation as its very first library call
+        op = case["op"]
+        want = isolated_baseline()[case["probe"]] if "probe" in case else _in_child(lambda: run_op(op))
+
+        def race():
+            res = [None] * 8
+            sys.setswitchinterval(1e-6)
+            bar = threading.Barrier(8)
+
+            def work(i):
+                bar.wait()
+                res[i] = run_op(op)
+
+            ths = [threading.Thread(target=work, args=(i,)) for i in range(8)]
+            for t_ in ths:
+                t_.start()
+            for t_ in ths:
+                t_.join()
+            return res
+
+        got = _in_child(race)
+        out = core.Out(classes=["threads", "coldstart"], dig=core.digest(op))
+        out.nontrivial = True
+        out.sample = {"coldstart_op": str(core.jenc(op))[:100]}
+        if isinstance(got, dict) or any(g != want for g in got):
+            bad = got if isinstance(got, dict) else next(g for g in got if g != want)
+            out.viol.append((f"{PROP}|thread-result-differs",
+                             f"8 threads starting cold on {str(core.jenc(op))[:90]}: one got {str(bad)[:80]!r}, "
+                             f"a single thread gets {str(want)[:80]!r}"))
         return out
     if k == "threads":
         jobs = case["jobs"]  # list of op lists, one per thread
@@ -458,12 +535,28 @@ def sibling_ops(draw):
     return [draw(op_for_target(x, kinds=("parse", "parse", "build-payload"))) for x in order[:4]]
 
 
+def alias_items():
+    """(name, value) for every name of a key ID that is stored under several names."""
+    import pyubx2
+
+    byid = {}
+    for n, (k, t) in pyubx2.UBX_CONFIG_DATABASE.items():
+        byid.setdefault(k, []).append((n, t))
+    out = []
+    for k, lst in byid.items():
+        if len(lst) > 1:
+            for n, t in lst:
+                out.append([n, codec.value_of(t, G.zero_raw(t)) if t[0] != "L" else 1])
+    return out
+
+
 def any_op():
     targets = C.cat()[0]
     pick = st.integers(0, len(targets) - 1).flatmap(lambda i: op_for_target(targets[i]))
     cfg = st.tuples(st.sampled_from(["set", "del", "poll"]), st.integers(0, 7), st.integers(0, 3),
                     st.lists(st.sampled_from([["CFG_UART1_BAUDRATE", 9600], [0x40520001, 115200],
-                                              ["CFG_NAVSPG_DYNMODEL", 4], ["CFG_BOGUS", 1], [0x10990001, b"\x01"]]),
+                                              ["CFG_NAVSPG_DYNMODEL", 4], ["CFG_BOGUS", 1], [0x10990001, b"\x01"]]
+                                             + alias_items()),
                              max_size=4)).map(lambda t: ["config", t[0], t[1], t[2], t[3]])
     strm = streams.garbage_streams(5).map(lambda it: ["stream", streams.stream_bytes(it), 0])
     return st.one_of(pick, pick, pick, cfg, strm)
@@ -496,12 +589,19 @@ def run_shard(spec, ctx, acc):
                             max_examples=2 if quick else 12, known=known, rounds=1, shrink=False)
         return
     if what == "history":
+        isolated_baseline()  # before any operation runs in this process
         strat = st.tuples(st.lists(any_op(), min_size=1, max_size=10 if quick else 30),
                           st.lists(sibling_ops(), max_size=2)).map(
             lambda t: {"kind": "history", "ops": t[0] + [o for grp in t[1] for o in grp]})
         core.hyp_search(acc, strat, check, seed=core.derive(ctx["seed"], PROP, "h", spec["part"]),
                         max_examples=40 if quick else 800, known=known, rounds=2)
         return
+    isolated_baseline()
+    for i, op in enumerate(probe_ops()):
+        if i % 2 == spec["part"] % 2:
+            for _rep in range(2 if quick else 6):
+                case = {"kind": "coldstart", "op": op, "probe": i}
+                core.handle(acc, check(case), case, known)
     strat = st.lists(st.lists(any_op(), min_size=5, max_size=25), min_size=8, max_size=8).map(
         lambda jobs: {"kind": "threads", "jobs": jobs})
     core.hyp_search(acc, strat, check, seed=core.derive(ctx["seed"], PROP, "t", spec["part"]),
